@@ -799,8 +799,8 @@ theorem cmdLoop_nonempty (be : Bool) (f : Bytes) (stop n pos : Nat) (st : ScanSt
 
 theorem hdrEndOf_eq (magic : Nat) : (if magic = 0xfeedfacf then 32 else 28) = hdrEndOf magic := rfl
 
-theorem scan_inv (f : Bytes) (m : Markers) (h : scan f = .ok m) : ∃ st, ScanInv f m st := by
-  unfold scan at h
+theorem scan_inv (f : Bytes) (m : Markers) (h : scanOrig f = .ok m) : ∃ st, ScanInv f m st := by
+  unfold scanOrig at h
   split at h
   · cases h
   · split at h
@@ -844,7 +844,7 @@ theorem scan_inv (f : Bytes) (m : Markers) (h : scan f = .ok m) : ∃ st, ScanIn
                   rfl, rfl, rfl, fun c => absurd c hs0⟩
 
 /-- the two hypotheses `lePos ≠ 0` and `lePos + 56 ≤ nextLc` of `macho_sign_then_verify_full` follow from `scan` -/
-theorem scan_lePos (f : Bytes) (m : Markers) (h : scan f = .ok m) : m.lePos ≠ 0 ∧ m.lePos + 56 ≤ m.nextLc := by
+theorem scan_lePos (f : Bytes) (m : Markers) (h : scanOrig f = .ok m) : m.lePos ≠ 0 ∧ m.lePos + 56 ≤ m.nextLc := by
   obtain ⟨st, S⟩ := scan_inv f m h
   refine ⟨S.lePos0, ?_⟩
   rcases cmdLoop_lePos _ _ _ _ _ _ _ S.loop with h1 | h1
@@ -976,9 +976,9 @@ theorem cmdLoop_eq_L (be : Bool) (f : Bytes) (stop : Nat) : ∀ (n pos : Nat) (s
         · rfl
 
 /-- `scan` in evaluable form: `decide` works on `scanL [95, …] f` for a concrete `f` -/
-theorem scan_eq_L (f : Bytes) : scan f = scanL [95, 95, 76, 73, 78, 75, 69, 68, 73, 84] f := by
+theorem scan_eq_L (f : Bytes) : scanOrig f = scanL [95, 95, 76, 73, 78, 75, 69, 68, 73, 84] f := by
   rw [← linkedit_eq]
-  unfold scan scanL
+  unfold scanOrig scanL
   simp only [cmdLoop_eq_L]
   rfl
 
